@@ -36,6 +36,9 @@ Inductive obs :=
 | OAlert (a : N).                              (* error returned; alert description sent *)
 
 Inductive case :=
+| CFlight (certreq advertised valid completed : bool)
+      (* a live TLS 1.3 handshake whose server sent [CertificateRequest] CompressedCertificate: it completed (both Finished
+         and the CertificateVerify verified over the transcript) iff the model puts the flight into the transcript in order *)
 | CMsg (alg ulen : N) (data trailing : bytes) (wire : option bytes) (back : option (N * N * bytes))
 | CRun (ee : bool) (adv : list N) (alg declared : N) (open_ok : bool) (o : outspec) (chunks : list N) (e : rend)
        (fs : zframes)   (* zstd: (declared Window_Size, decompressed length) of every frame, parsed from the frame headers by the runner; [] otherwise *)
@@ -47,6 +50,12 @@ Definition obytes_eqb (a b : option bytes) : bool :=
 
 Definition check (c : case) : bool :=
   match c with
+  | CFlight certreq advertised valid completed =>
+      let f := (if certreq then [FCertReq] else []) ++ [FCompressed] in
+      match client_cert_flight f (advertised && valid) with
+      | Ok tr => completed && list_eqb (fun a b => match a, b with FCertReq, FCertReq | FCert, FCert | FCompressed, FCompressed => true | _, _ => false end) tr f
+      | _ => negb completed
+      end
   | CMsg alg ulen data trailing wire back =>
       match cc_marshal (mkCC alg ulen data), wire with
       | Ok b, Some w =>
